@@ -118,6 +118,7 @@ type runner struct {
 	cancel    context.CancelFunc
 	simClass  string
 	simDetail string
+	ref       *retriever.Manifest // manifest of the uninterrupted reference dump
 	expect    stor.DBSpec // what a complete dump must load to (the source, or the scrubbed source)
 	w        WL
 	base     string
@@ -214,8 +215,8 @@ func hash64(s string) uint64 {
 // afterResume evaluates O1 / O2. pre is the durable image before the resume.
 func (r *runner) afterResume(src stor.DBSpec, err error, pre map[string]string, preCk *checkpointView, hadCk bool, allowCk bool, tag string) string {
 	if err == nil {
-		if d := stor.CheckDump(r.out, src, 3, allowCk); d != "" {
-			return fmt.Sprintf("%s: resume returned nil but the directory is not a complete dump: %s", tag, d)
+		if d := stor.CheckDumpRef(r.out, src, 3, allowCk, r.ref); d != "" {
+			return fmt.Sprintf("%s: resume returned nil but the directory is not a complete dump equivalent to an uninterrupted one: %s", tag, d)
 		}
 		r.counters["resume_completed"]++
 		return ""
@@ -618,6 +619,9 @@ func exec(t *testing.T, w WL, cfg simrt.Config) simh.Outcome {
 		}
 	}
 	r.refLog, r.refCalls = rep.Log, src.Calls
+	if rm, err := retriever.ReadManifest(r.out); err == nil {
+		r.ref = &rm
+	}
 	r.expect = w.DB
 	if w.Opts.Salt != "" {
 		var names []string
